@@ -392,3 +392,174 @@ def special_cases(rnd, tag, reps=1):
                    {"where": "body", "index": 3, "cond": cond_patch(g3), "default": "x"}]
         cs.append(_finish(prog, "guardedassign", f"{tag}-guardedassign-{rep}", nmax=2, patches=patches))
     return cs
+
+
+# ---------------------------------------------------------------------------------------------
+# exact evaluation of expressions on a state (expected sampler arguments)
+# ---------------------------------------------------------------------------------------------
+
+def eval_expr(e, env):
+    t = e[0]
+    if t == "num":
+        return Fr(e[1])
+    if t == "var":
+        return Fr(env[e[1]])
+    if t == "add":
+        return eval_expr(e[1], env) + eval_expr(e[2], env)
+    if t == "sub":
+        return eval_expr(e[1], env) - eval_expr(e[2], env)
+    if t == "mul":
+        return eval_expr(e[1], env) * eval_expr(e[2], env)
+    if t == "div":
+        return eval_expr(e[1], env) / eval_expr(e[2], env)
+    if t == "neg":
+        return -eval_expr(e[1], env)
+    if t == "pow":
+        return eval_expr(e[1], env) ** int(e[2])
+    raise ValueError(e)
+
+
+# ---------------------------------------------------------------------------------------------
+# templates: random initial sections (independence of the runs), state-dependent probabilities
+# ---------------------------------------------------------------------------------------------
+
+def init_random_cases(rnd, tag):
+    cs = []
+    P = [Fr(1, 2), Fr(1, 4), Fr(3, 4), Fr(1, 8)]
+    p, q = rnd.choice(P), rnd.choice(P)
+    a = rnd.choice([1, 2, -1])
+    # the seeded-change program: a choice in an otherwise plain initial section
+    prog = {"init": [H.assign("x", _choice((N(1), p), (N(4), 1 - p))), H.assign("y", H.ex(N(0)))],
+            "guard": H.TT, "body": [H.assign("y", H.ex(H.add(V("y"), V("x"))))]}
+    cs.append(_finish(prog, "initrandom", f"{tag}-init-choice", nmax=2))
+    # choice + plain + choice reading an earlier initial value
+    prog = {"init": [H.assign("x", H.ex(N(a))), H.assign("y", _choice((H.add(V("x"), N(1)), p), (V("x"), 1 - p))),
+                     H.assign("z", _choice((N(0), q), (H.mul(N(2), V("y")), 1 - q)))],
+            "guard": H.TT, "body": [H.assign("x", H.ex(H.add(V("x"), V("z"))))]}
+    cs.append(_finish(prog, "initrandom", f"{tag}-init-choice-chain", nmax=1))
+    # Bernoulli / Categorical / DiscreteUniform draws next to plain assignments and a choice
+    prog = {"init": [H.assign("f", ("dist", "Bernoulli", [N(p)])), H.assign("x", _choice((N(1), q), (N(2), 1 - q))),
+                     H.assign("y", H.ex(N(3)))],
+            "guard": H.cmp_("==", V("f"), N(1)),
+            "body": [H.assign("y", H.ex(H.add(V("y"), V("x")))), H.assign("f", ("dist", "Bernoulli", [N(Fr(1, 2))]))]}
+    cs.append(_finish(prog, "initrandom", f"{tag}-init-bernoulli-choice", nmax=1))
+    prog = {"init": [H.assign("k", ("dist", "Categorical", [N(Fr(1, 4)), N(Fr(3, 4))])),
+                     H.assign("u", ("dist", "DiscreteUniform", [N(0), N(1)])),
+                     H.assign("x", _choice((H.add(V("k"), N(1)), p), (V("u"), 1 - p)))],
+            "guard": H.TT, "body": [H.assign("x", H.ex(H.add(V("x"), V("k"))))]}
+    cs.append(_finish(prog, "initrandom", f"{tag}-init-draws", nmax=1))
+    # control: deterministic initial section, choice in the body
+    prog = {"init": [H.assign("x", H.ex(N(a))), H.assign("y", H.ex(N(0)))], "guard": H.TT,
+            "body": [H.assign("y", _choice((H.add(V("y"), V("x")), p), (V("y"), 1 - p)))]}
+    cs.append(_finish(prog, "initrandom", f"{tag}-init-plain", nmax=2))
+    # probabilities / parameters that change with the state
+    prog = {"init": [H.assign("p", H.ex(N(Fr(1, 2)))), H.assign("x", H.ex(N(0))), H.assign("f", H.ex(N(0))),
+                     H.assign("k", H.ex(N(0)))],
+            "guard": H.TT,
+            "body": [H.assign("x", ("choice", [(H.add(V("x"), N(1)), V("p")), (V("x"), H.sub(N(1), V("p")))])),
+                     H.assign("f", ("dist", "Bernoulli", [V("p")])),
+                     H.assign("k", ("dist", "Categorical", [V("p"), H.sub(N(1), V("p"))])),
+                     H.assign("p", H.ex(H.mul(N(Fr(1, 2)), V("p"))))]}
+    cs.append(_finish(prog, "statedep", f"{tag}-statedep-probabilities", nmax=2))
+    return cs
+
+
+# ---------------------------------------------------------------------------------------------
+# templates: continuous draws whose parameters change along the run (arguments of every sampler call)
+# ---------------------------------------------------------------------------------------------
+
+RVS_FAMILIES = {"Bernoulli", "Normal", "Uniform", "Laplace", "DistExp", "Gamma", "Beta", "TruncNormal"}
+
+
+def draws_of(prog):
+    """(index in body, variable, family, parameter expressions) of the top-level draws answered by scipy;
+    None when the shape is outside what the trace check supports"""
+    for s in prog["init"]:
+        if s[0] != "assign" or s[2][0] == "dist":
+            return None
+    out = []
+    for i, s in enumerate(prog["body"]):
+        if s[0] != "assign":
+            return None
+        if s[2][0] == "dist":
+            if s[2][1] not in RVS_FAMILIES:
+                return None
+            earlier = H.stmts_assigned(prog["body"][:i])
+            used = set()
+            for pe in s[2][2]:
+                H.expr_vars(pe, used)
+            if used & earlier:
+                return None          # parameters must be functions of the state at the start of the iteration
+            out.append((i, s[1], s[2][1], s[2][2]))
+    return out
+
+
+def _trace_case(prog, cid, n=3, note=None):
+    c = _finish(prog, "trace", cid, nmax=n, note=note)
+    c["draws"] = draws_of(prog)
+    assert c["draws"], cid
+    c["n"] = n
+    return c
+
+
+def trace_cases(rnd, tag):
+    cs = []
+    D = lambda name, *ps: ("dist", name, list(ps))  # noqa
+    sq = lambda e: H.pw(e, 2)  # noqa
+    half = N(Fr(1, 2))
+    # the seeded-change program: constant mean, variance grows with the iteration
+    prog = {"init": [H.assign("s", H.ex(N(1))), H.assign("x", H.ex(N(0)))], "guard": H.TT,
+            "body": [H.assign("x", D("Normal", N(0), sq(V("s")))), H.assign("s", H.ex(H.add(V("s"), N(1))))]}
+    cs.append(_trace_case(prog, f"{tag}-normal-variance"))
+    # mean and variance move, second draw with a moving mean only, step chosen by a choice
+    prog = {"init": [H.assign("s", H.ex(N(1))), H.assign("x", H.ex(N(0))), H.assign("y", H.ex(N(0)))], "guard": H.TT,
+            "body": [H.assign("x", D("Normal", V("x"), sq(V("s")))), H.assign("y", D("Normal", V("s"), N(4))),
+                     H.assign("s", _choice((H.add(V("s"), N(1)), Fr(1, 2)), (H.add(V("s"), N(2)), Fr(1, 2))))]}
+    cs.append(_trace_case(prog, f"{tag}-normal-mean-variance"))
+    prog = {"init": [H.assign("s", H.ex(N(1))), H.assign("x", H.ex(N(0))), H.assign("u", H.ex(N(0))),
+                     H.assign("l", H.ex(N(0)))], "guard": H.TT,
+            "body": [H.assign("u", D("Uniform", V("x"), H.add(V("x"), V("s")))), H.assign("l", D("Laplace", V("x"), V("s"))),
+                     H.assign("x", H.ex(H.add(V("x"), H.mul(half, V("s"))))), H.assign("s", H.ex(H.mul(N(2), V("s"))))]}
+    cs.append(_trace_case(prog, f"{tag}-uniform-laplace"))
+    prog = {"init": [H.assign("s", H.ex(N(1))), H.assign("w", H.ex(N(0))), H.assign("g", H.ex(N(0))),
+                     H.assign("b", H.ex(N(0))), H.assign("c", H.ex(N(0)))], "guard": H.TT,
+            "body": [H.assign("w", D("DistExp", V("s"))), H.assign("g", D("Gamma", V("s"), H.mul(N(2), V("s")))),
+                     H.assign("b", D("Beta", V("s"), H.add(V("s"), N(1)))), H.assign("c", D("Beta", N(1), N(2), V("s"))),
+                     H.assign("s", H.ex(H.mul(N(2), V("s"))))]}
+    cs.append(_trace_case(prog, f"{tag}-exp-gamma-beta"))
+    prog = {"init": [H.assign("s", H.ex(N(1))), H.assign("m", H.ex(N(0))), H.assign("t", H.ex(N(0))),
+                     H.assign("f", H.ex(N(0))), H.assign("p", H.ex(half))], "guard": H.TT,
+            "body": [H.assign("t", D("TruncNormal", V("m"), sq(V("s")), H.sub(V("m"), N(1)), H.add(V("m"), N(3)))),
+                     H.assign("f", D("Bernoulli", V("p"))),
+                     H.assign("m", H.ex(H.add(V("m"), half))), H.assign("s", H.ex(H.mul(N(2), V("s")))),
+                     H.assign("p", H.ex(H.mul(half, V("p"))))]}
+    cs.append(_trace_case(prog, f"{tag}-truncnormal-bernoulli"))
+    # constant parameters (a legitimate place for a cache) next to moving ones
+    prog = {"init": [H.assign("s", H.ex(N(2))), H.assign("x", H.ex(N(0))), H.assign("y", H.ex(N(0)))], "guard": H.TT,
+            "body": [H.assign("x", D("Normal", N(1), N(4))), H.assign("y", D("Uniform", N(0), V("s"))),
+                     H.assign("s", H.ex(H.add(V("s"), V("s"))))]}
+    cs.append(_trace_case(prog, f"{tag}-constant-and-moving"))
+    return cs
+
+
+# ---------------------------------------------------------------------------------------------
+# corpus entries tagged C12
+# ---------------------------------------------------------------------------------------------
+
+def corpus_cases(corpus):
+    """corpus: list of cases from pipeline.load_corpus('C12').  Discrete programs get dyadic constants and join the
+    program / several-runs checks; programs with scipy draws join the sampler-argument trace."""
+    discrete, traces = [], []
+    for c in corpus:
+        p = c["program"]
+        name = "corpus-" + c.get("corpus", "?").replace(".json", "")
+        if has_continuous(p["init"]) or has_continuous(p["body"]):
+            q = {"init": p["init"], "guard": p["guard"], "body": p["body"]}
+            if draws_of(q):
+                traces.append(_trace_case(q, name))
+        else:
+            q = dyadicize({"init": p["init"], "guard": p["guard"], "body": p["body"]})
+            case = _finish(q, "corpus", name, nmax=2)
+            case["multi"] = True
+            discrete.append(case)
+    return discrete, traces
